@@ -129,6 +129,16 @@ func streamTarget(vi int) streamAPI {
 						sinkErr = z.Set(abv, val)
 						sinkStr, _ = z.Get(abv)
 					}
+				case "set-temp":
+					// the value built per call from a byte slice, as a tokenizer hands it over: the conversion stays on the
+					// caller's stack unless Set lets its value argument escape. (The abbreviation does escape, by design:
+					// the error for an unknown one carries it - so it is passed as it is.)
+					vb, bad := []byte(val + val)[:len(val)], []byte(val+"~~")
+					return func(i int) {
+						b := *c
+						sinkErr = b.Set(abv, string(vb))
+						sinkErr = b.Set(abv, string(bad))
+					}
 				case "get":
 					return func(i int) { b := *c; sinkStr, sinkErr = b.Get(abv) }
 				case "vector":
@@ -157,6 +167,16 @@ func streamTarget(vi int) streamAPI {
 						var z gocvss30.CVSS30
 						sinkErr = z.Set(abv, val)
 						sinkStr, _ = z.Get(abv)
+					}
+				case "set-temp":
+					// the value built per call from a byte slice, as a tokenizer hands it over: the conversion stays on the
+					// caller's stack unless Set lets its value argument escape. (The abbreviation does escape, by design:
+					// the error for an unknown one carries it - so it is passed as it is.)
+					vb, bad := []byte(val + val)[:len(val)], []byte(val+"~~")
+					return func(i int) {
+						b := *c
+						sinkErr = b.Set(abv, string(vb))
+						sinkErr = b.Set(abv, string(bad))
 					}
 				case "get":
 					return func(i int) { b := *c; sinkStr, sinkErr = b.Get(abv) }
@@ -188,6 +208,16 @@ func streamTarget(vi int) streamAPI {
 						sinkErr = z.Set(abv, val)
 						sinkStr, _ = z.Get(abv)
 					}
+				case "set-temp":
+					// the value built per call from a byte slice, as a tokenizer hands it over: the conversion stays on the
+					// caller's stack unless Set lets its value argument escape. (The abbreviation does escape, by design:
+					// the error for an unknown one carries it - so it is passed as it is.)
+					vb, bad := []byte(val + val)[:len(val)], []byte(val+"~~")
+					return func(i int) {
+						b := *c
+						sinkErr = b.Set(abv, string(vb))
+						sinkErr = b.Set(abv, string(bad))
+					}
 				case "get":
 					return func(i int) { b := *c; sinkStr, sinkErr = b.Get(abv) }
 				case "vector":
@@ -217,6 +247,13 @@ func streamTarget(vi int) streamAPI {
 					var z gocvss40.CVSS40
 					sinkErr = z.Set(abv, val)
 					sinkStr, _ = z.Get(abv)
+				}
+			case "set-temp":
+				vb, bad := []byte(val + val)[:len(val)], []byte(val+"~~")
+				return func(i int) {
+					b := *c
+					sinkErr = b.Set(abv, string(vb))
+					sinkErr = b.Set(abv, string(bad))
 				}
 			case "get":
 				return func(i int) { b := *c; sinkStr, sinkErr = b.Get(abv) }
@@ -298,6 +335,9 @@ func checkStream(c StreamCase) error {
 			f, budget = func(i int) { sinkErr = obj(i).Set(abv, cur[i%len(cur)]); sinkErr = obj(i).Set(abv, "zz") }, 0
 		case "scores":
 			f, budget = func(i int) { sk(i).f = api.scores(obj(i)) }, 0
+		case "set-temp-local":
+			cur, _ := objs[0].Get(abv)
+			f, budget = api.local(objs[0], "set-temp", abv, cur), 0
 		case "set-local", "get-local", "scores-local":
 			cur, _ := objs[0].Get(abv)
 			f, budget = api.local(objs[0], c.Func[:len(c.Func)-6], abv, cur), 0
@@ -378,7 +418,7 @@ func streamCases(nSame, nDistinct int, from int) []StreamCase {
 			out = append(out, StreamCase{Ver: vi, Func: fn, Stream: "same", Vector: spec.Canon(v, longest), N: nSame / 2, G: 8})
 		}
 		// objects held by value in a local variable
-		for _, fn := range []string{"set-local", "get-local", "vector-local", "scores-local"} {
+		for _, fn := range []string{"set-local", "get-local", "vector-local", "scores-local", "set-temp-local"} {
 			out = append(out, StreamCase{Ver: vi, Func: fn, Stream: "same", Vector: spec.Canon(v, longest), N: nSame / 4})
 		}
 	}
